@@ -7,7 +7,7 @@ Scratch runs (VERIF_SELFTEST=1) write neither /verif/evidence nor /verif/build/r
 import json, os, shutil, subprocess, sys, tempfile
 
 VERIF = os.path.dirname(os.path.dirname(os.path.abspath(__file__)))
-REPO = '/repo'
+REPO = os.environ.get('VERIF_SELFTEST_SRC', '/repo')
 
 
 def scratch():
